@@ -397,74 +397,88 @@ def _norm(s):
 
 
 def strict(line):
-    """Is the answer to this line DETERMINED by its arguments and the documentation of the function called?  Only then is a
-    difference from the model / from the documented behaviour an alarm.  Everything that depends on a default nobody specifies
-    (a builder setter that is not called, CanonicalBlock::new(), Bundle::default(), the flags / hop limit new_std_payload_bundle picks,
-    whether new_primary_block aborts or not on a bad endpoint text, the return-value conventions of the block-level mutators) is an
-    OBSERVATION: run, compared and counted in the evidence, never a violation - no property speaks about it, and a maintainer may
-    change it freely."""
-    toks = line.split()
-    if toks and toks[0] in ("D", "R"):
-        toks = toks[1:]
-    if len(toks) < 3 or toks[0] != "API":
-        return False
-    k, sub = toks[1], toks[2]
-    if k == "BLK":
-        return sub in ("HOP", "AGE", "PREV", "PAYLOAD", "CANON") or (sub == "BUILD" and "-" not in toks[3:])
-    if k in ("PB", "BB"):
-        return "-" not in toks[2:]
+    """No answer of the construction API is forced by a property: C11 speaks about 'any valid bundle built through the public builders',
+    not about what a builder does with each argument (`seeded/H6a-harmless` h2: PrimaryBlockBuilder::build() clearing the fragment fields
+    of a non-fragment is a legitimate change).  So every `API` line is an OBSERVATION for the model/implementation diff and for the
+    reading of the documentation (`expected`): run, compared, counted in the evidence - never an alarm.  What IS judged is the property:
+    see `oracle`."""
     return False
 
 
-def std_facts(line, out):
-    """new_std_payload_bundle: what its documentation promises (endpoints as given, CRC none, lifetime one hour, a payload block with
-    the data) and what C11 needs of a bundle 'built through the public builders' (it validates)"""
+def _toks(line):
     toks = line.split()
     if toks and toks[0] in ("D", "R"):
         toks = toks[1:]
-    t = genb.T(toks[2:])
+    return toks
+
+
+def std_facts(line, out):
+    """new_std_payload_bundle: a bundle 'built through the public builders' from valid endpoints validates, keeps the endpoints and
+    carries the data in its last block (C11's start state)"""
+    t = genb.T(_toks(line)[2:])
     s, d, data = genb.parse_eid(t), genb.parse_eid(t), t.b()
     if d == ("NONE", 1, 0) or not out.startswith("OK "):
         return None            # refusing the null destination (by a panic or otherwise) is not specified
     o = out.split(" ")
     b = genb.parse_bundle(genb.T(o[1:-1] if o[-1] == "VALID" else o[1:-2]))
-    p = b["p"]
-    if (p["dst"], p["src"]) != (d, s):
-        return "new_std_payload_bundle: endpoints are not the ones given"
-    if p["crc"] != ("N",) or any(c["crc"] != ("N",) for c in b["cs"]) or p["life"] != 3600000:
-        return "new_std_payload_bundle: documented defaults (no CRC, lifetime one hour) not kept"
-    pl = [c for c in b["cs"] if c["type"] == 1]
-    if len(pl) != 1 or pl[0]["data"] != ("DATA", data) or b["cs"][-1] is not pl[0]:
-        return "new_std_payload_bundle: payload block missing, not last or not carrying the data"
-    if not all(eid_valid(e) for e in (s, d)):
-        return None
-    if "INVALID" in out:
-        return "new_std_payload_bundle returns a bundle that does not validate"
-    return None
+    return b, "INVALID" not in out, (s, d, data)
 
 
-def oracle(line, out):
-    """None = as promised, or an observation (not strict)"""
-    if not is_api(line):
+def bb_facts(line, out):
+    """BundleBuilder: -> (bundle, says valid, payload handed to payload() or None, payload blocks handed to canonicals())"""
+    if not out.startswith("OK "):
         return None
-    toks = line.split()
-    if toks[0] in ("D", "R"):
-        toks = toks[1:]
-    if toks[1] == "STD":
-        try:
-            return std_facts(line, out or "")
-        except (AssertionError, IndexError, ValueError, TypeError):
-            return "new_std_payload_bundle: unreadable answer %s" % (out or "")[:60]
-    if not strict(line):
+    t = genb.T(_toks(line)[2:])
+    _popt(t, _pprimary)
+    cs = _popt(t, _pblocks) or []
+    pl = _popt(t, lambda t: t.b())
+    o = out.split(" ")
+    b = genb.parse_bundle(genb.T(o[1:-1] if o[-1] == "VALID" else o[1:-2]))
+    return b, "INVALID" not in out, pl, [c for c in cs if c["type"] == 1]
+
+
+def oracle(line, out, inv=None, valid=None, wf=None):
+    """The property (C11) on what the builders return: a bundle that the library itself declares valid, and that is well formed, satisfies
+    the block-list invariant `inv` right away (sorted strictly descending, one payload block numbered 1 and last, singletons once ..), the
+    library's verdict agrees with the rule list `valid`, and the payload handed to payload() / new_std_payload_bundle is the one read back."""
+    if not is_api(line) or out is None or inv is None:
         return None
+    k = _toks(line)[1]
     try:
-        exp = expected(line)
-    except (AssertionError, IndexError, ValueError, TypeError):
-        exp = None
-    if exp is None:
-        return None
-    if out is None or _norm(out) != exp:
-        return "the public API does not do what it documents: got %s, promised %s" % ((out or "")[:160], exp[:160])
+        if k == "STD":
+            f = std_facts(line, out)
+            if f is None:
+                return None
+            b, says_valid, (s, d, data) = f
+            if says_valid != valid(b):
+                return "validate says %s, the rule list says %s" % (says_valid, valid(b))
+            if not (eid_valid(s) and eid_valid(d)):
+                return None
+            if not says_valid:
+                return "new_std_payload_bundle from valid endpoints returns a bundle that does not validate"
+            if wf(b):
+                why = inv(b)
+                if why:
+                    return "new_std_payload_bundle: " + why
+            if b["cs"][-1]["data"] != ("DATA", data) or (b["p"]["dst"], b["p"]["src"]) != (d, s):
+                return "new_std_payload_bundle: payload or endpoints are not the ones given"
+            return None
+        if k == "BB":
+            f = bb_facts(line, out)
+            if f is None:
+                return None
+            b, says_valid, pl, given = f
+            if says_valid != valid(b):
+                return "validate says %s, the rule list says %s" % (says_valid, valid(b))
+            if says_valid and wf(b):
+                why = inv(b)
+                if why:
+                    return "BundleBuilder returned a valid bundle that violates the invariant: " + why
+                if pl is not None and not given and b["cs"][-1]["data"] != ("DATA", pl):
+                    return "BundleBuilder: the payload read back is not the one handed to payload()"
+            return None
+    except (AssertionError, IndexError, ValueError, TypeError, KeyError):
+        return "unreadable answer of the construction API: %s" % out[:80]
     return None
 
 
@@ -479,7 +493,7 @@ def observed_difference(line, out):
 
 def same(line, io, mo):
     """model / implementation differences on observation lines are not alarms"""
-    return is_api(line) and not strict(line)
+    return is_api(line)
 
 
 def is_api(line):
